@@ -16,6 +16,11 @@ def main():
     ap.add_argument('--only', help='restrict to items whose name contains this text (debugging)')
     a = ap.parse_args()
     os.environ['VERIF_TIER'] = a.tier
+    if a.only and not os.environ.get('VERIF_EVIDENCE_DIR'):
+        # a partial (debugging) run must not replace the evidence of the full check
+        d = os.path.join(os.path.dirname(os.path.dirname(os.path.abspath(__file__))), 'work', 'partial-evidence')
+        os.makedirs(d, exist_ok=True)
+        os.environ['VERIF_EVIDENCE_DIR'] = d
     if a.prop not in CHECKS:
         print('no check for ' + a.prop, file=sys.stderr)
         sys.exit(2)
